@@ -1,0 +1,62 @@
+//go:build verif
+
+// Contracts for the deductive checker in /verif (govc). Comment-only: no code is compiled
+// from this file, and it is ignored entirely without the "verif" build tag.
+
+package types
+
+//@ func addUint64Overflow(a, b uint64) (r uint64, ov bool)
+//@   props C16
+//@   ensures ov == (a + b > 18446744073709551615)
+//@   ensures !ov ==> r == a + b
+//@   ensures ov ==> r == 0
+//@
+//@ func (g *basicGasMeter) ConsumeGas(amount Gas, descriptor string)
+//@   props C16
+//@   modifies g.consumed
+//@   panics ErrorGasOverflow when old(g.consumed) + amount > 18446744073709551615
+//@   panics ErrorOutOfGas when old(g.consumed) + amount <= 18446744073709551615 && old(g.consumed) + amount > g.limit
+//@   ensures g.consumed == old(g.consumed) + amount
+//@   ensures g.consumed <= g.limit
+//@
+//@ func (g *basicGasMeter) GasConsumed() (r Gas)
+//@   props C16
+//@   ensures r == g.consumed
+//@
+//@ func (g *basicGasMeter) Limit() (r Gas)
+//@   props C16
+//@   ensures r == g.limit
+//@
+//@ func (g *basicGasMeter) GasConsumedToLimit() (r Gas)
+//@   props C16
+//@   ensures r == min(g.consumed, g.limit)
+//@
+//@ func (g *basicGasMeter) IsPastLimit() (r bool)
+//@   props C16
+//@   ensures r == (g.consumed > g.limit)
+//@
+//@ func (g *basicGasMeter) IsOutOfGas() (r bool)
+//@   props C16
+//@   ensures r == (g.consumed >= g.limit)
+//@
+//@ func (g *infiniteGasMeter) ConsumeGas(amount Gas, descriptor string)
+//@   props C16
+//@   modifies g.consumed
+//@   panics ErrorGasOverflow when old(g.consumed) + amount > 18446744073709551615
+//@   ensures g.consumed == old(g.consumed) + amount
+//@
+//@ func (g *infiniteGasMeter) GasConsumed() (r Gas)
+//@   props C16
+//@   ensures r == g.consumed
+//@
+//@ func (g *infiniteGasMeter) GasConsumedToLimit() (r Gas)
+//@   props C16
+//@   ensures r == g.consumed
+//@
+//@ func (g *infiniteGasMeter) IsPastLimit() (r bool)
+//@   props C16
+//@   ensures !r
+//@
+//@ func (g *infiniteGasMeter) IsOutOfGas() (r bool)
+//@   props C16
+//@   ensures !r
